@@ -145,12 +145,13 @@ func (b *BarrierSvc) Hold(req *[]byte, res *[]byte) error {
 	d1 := sha256.Sum256(*req)
 	close(b.entered)
 	<-b.release
-	if sha256.Sum256(*req) != d1 {
+	d2 := sha256.Sum256(*req)
+	if d2 != d1 {
 		b.mu.Lock()
 		b.changed++
 		b.mu.Unlock()
 	}
-	*res = []byte{1}
+	*res = append([]byte(nil), d2[:]...)
 	return nil
 }
 
@@ -206,7 +207,13 @@ func serverConcurrentAnswers(e *Env) {
 			e.count("concurrent-answers", fmt.Sprintf("ca-%s-%v-%d", enc, direct, round%4))
 		}
 	}
-	// arguments stay what the client sent for as long as the handler runs, also with NoCopy
+	argsDuringHandler(e)
+}
+
+// argsDuringHandler: the arguments of a running handler stay what the client sent, also with NoCopy, while
+// later requests arrive on its connection; and its reply, computed from them when it is released, is its own.
+func argsDuringHandler(e *Env) {
+	pid := e.Res.Property
 	for mode := 0; mode < 8; mode++ {
 		noCopy, pipelining, direct := mode&1 == 1, mode&2 == 2, mode&4 == 4
 		desc := map[string]interface{}{"server_nocopy": noCopy, "server_pipelining": pipelining, "server_directIO": direct, "seed": e.Seed}
@@ -233,7 +240,7 @@ func serverConcurrentAnswers(e *Env) {
 		select {
 		case <-svc.entered:
 		case <-time.After(5 * time.Second):
-			e.fail("C04-request-not-answered", "a handler never started", desc)
+			e.fail(pid+"-request-not-answered", "a handler never started", desc)
 			continue
 		}
 		// further frames of several sizes arrive while the handler is still running
@@ -252,11 +259,95 @@ func serverConcurrentAnswers(e *Env) {
 		svc.mu.Lock()
 		ch := svc.changed
 		svc.mu.Unlock()
+		wantReply := sha256.Sum256(held)
+		if hc.Error == nil && !bytes.Equal(hres, wantReply[:]) {
+			e.fail(pid+"-wrong-reply", fmt.Sprintf("a call whose handler was still running while later requests arrived completed without error with a reply that was not computed from its own arguments (NoCopy=%v pipelining=%v directIO=%v)", noCopy, pipelining, direct), desc)
+		}
 		if ch != 0 {
-			e.fail("C04-arguments-change-under-handler", fmt.Sprintf("the arguments of a running handler changed while later requests arrived on its connection (NoCopy=%v pipelining=%v directIO=%v)", noCopy, pipelining, direct), desc)
+			e.fail(pid+"-arguments-change-under-handler", fmt.Sprintf("the arguments of a running handler changed while later requests arrived on its connection (NoCopy=%v pipelining=%v directIO=%v)", noCopy, pipelining, direct), desc)
 		}
 		conn.Close()
 		cend.Close()
 		e.count("args-during-handler", fmt.Sprintf("adh-%d", mode))
+	}
+}
+
+// Push is a stream handler that pushes a few messages for every message it reads.
+func (b *BarrierSvc) Push(h *hStream) error {
+	for {
+		var m []byte
+		if err := h.s.ReadMessage(nil, &m); err != nil {
+			return nil
+		}
+		for k := 0; k < 3; k++ {
+			out := append([]byte{byte(k)}, m...)
+			h.s.WriteMessage(&out)
+		}
+	}
+}
+
+// callsAfterStreamPushes: the same server serves a stream whose handler pushes messages, and ordinary calls
+// on the same and on another connection afterwards: every one of them is executed once and answered.
+func callsAfterStreamPushes(e *Env) {
+	pid := e.Res.Property
+	for mode := 0; mode < 4; mode++ {
+		pipelining, direct := mode&1 == 1, mode&2 == 2
+		desc := map[string]interface{}{"scenario": "ordinary calls after a stream handler has pushed messages", "server_pipelining": pipelining, "server_directIO": direct, "seed": e.Seed}
+		e.inflight(desc)
+		asvc := &ArgSvc{seen: map[int][][32]byte{}}
+		srv := rpc.NewServer()
+		srv.SetLogLevel(rpc.OffLogLevel)
+		srv.SetPipelining(pipelining)
+		srv.SetDirectIO(direct)
+		srv.RegisterName("B", &BarrierSvc{})
+		srv.RegisterName("A", asvc)
+		newConn := func() (*rpc.Conn, *pipeEnd) {
+			cend, send := newPipeCap(1 << 12)
+			go srv.ServeCodec(rpc.NewServerCodec(&rpc.BYTESCodec{}, nil, send, direct, 0))
+			return rpc.NewConnWithCodec(rpc.NewClientCodec(&rpc.BYTESCodec{}, nil, cend, 0)), cend
+		}
+		conn, cend := newConn()
+		st, err := conn.NewStream("B.Push")
+		if err != nil {
+			e.fail(pid+"-wellformed-request-failed", fmt.Sprintf("NewStream failed: %v", err), desc)
+			continue
+		}
+		for round := 0; round < 3; round++ {
+			m := []byte{'m', byte(round)}
+			st.WriteMessage(&m)
+			for k := 0; k < 3; k++ {
+				if _, err, ok := readWithTimeout(st, 3*time.Second); !ok || err != nil {
+					e.fail("C09-message-lost", fmt.Sprintf("a pushed stream message did not arrive (%v)", err), desc)
+				}
+			}
+			conn2, cend2 := newConn()
+			for i, c := range []*rpc.Conn{conn, conn2, conn, conn2, conn, conn2} {
+				n := 20 + round*10 + i
+				req := genBytes(e, n, i%3)
+				var res []byte
+				call := c.Go("A.Take", &req, &res, make(chan *rpc.Call, 1))
+				select {
+				case <-call.Done:
+					asvc.mu.Lock()
+					runs := len(asvc.seen[n])
+					asvc.seen[n] = nil
+					asvc.mu.Unlock()
+					if call.Error != nil || runs != 1 {
+						e.fail(pid+"-handler-runs", fmt.Sprintf("an ordinary call made after a stream handler of the same server had pushed messages ended with err=%v and ran its handler %d times", call.Error, runs), desc)
+					}
+				case <-time.After(3 * time.Second):
+					asvc.mu.Lock()
+					runs := len(asvc.seen[n])
+					asvc.mu.Unlock()
+					e.fail(pid+"-request-not-answered", fmt.Sprintf("an ordinary call made after a stream handler of the same server had pushed messages was never answered; its handler ran %d times", runs), desc)
+				}
+				e.count("calls-after-push", fmt.Sprintf("cap-%d-%d-%d", mode, round, i))
+			}
+			conn2.Close()
+			cend2.Close()
+		}
+		st.Close()
+		conn.Close()
+		cend.Close()
 	}
 }
